@@ -1293,7 +1293,7 @@ def w_auth_reblock(R, rng, desc):
     response with another number of blocks (a counterfeit tag / a man in the middle that cuts or pads and repairs
     the length and count octets), against a tag that holds the key and against tags that hold another key"""
     shard, j = desc["shard"], 0
-    for kind in ("lite", "lites"):
+    for kind in ("lite", "lites") * desc["stripes"]:
         for held in (False, True):
             pw = gen_password(rng, kind, "bytes", rng.choice([0, 16, 16, 24]))
             d = derive(kind, pw)
@@ -1321,7 +1321,8 @@ def w_auth_reblock(R, rng, desc):
 
 def w_auth_resize(R, rng, desc):
     """NTAG21x / Ultralight EV1 PWD_AUTH and the two Ultralight C AUTHENTICATE responses cut short or made longer"""
-    for kind in (NTAGS[desc["shard"] % 5], ULEV1[desc["shard"] % 2], "ulc", "ulc"):
+    for i in range(4 * desc["stripes"]):
+        kind = (NTAGS[(desc["shard"] + i // 4) % 5], ULEV1[(desc["shard"] + i // 4) % 2], "ulc", "ulc")[i % 4]
         fam = family(kind)
         for held in (True, False, False):
             pw = gen_password(rng, fam, "bytes", rng.choice([0, KEYLEN[fam], KEYLEN[fam] + 3]))
